@@ -7,7 +7,7 @@ from .progs import gen_program
 
 
 def run(ctx):
-    C.prepare(ctx, ['C08', 'C12_mvp60', 'C12_mvp61', 'C12_mvp62', 'C12_mvp63', 'C12_mvp70'])
+    C.prepare(ctx, ['C08', 'C12_mvp60', 'C12_mvp61', 'C12_mvp62', 'C12_mvp63', 'C12_mvp70', 'C08_mvp80'])
     cells = syscheck.load_domains()
     rng = ctx.rng
     n = 25 if ctx.tier == 'quick' else 600
